@@ -41,7 +41,7 @@ KINDS = {
         "bin": "router_reqrep",
         "trace_b": ("Trace_ReqRepIface", "Trace_ReqRepIface.cfg"),
         "trace_a": ("Trace_ReqRepRouter", "Trace_ReqRepRouter.cfg"),
-        "devs": ["FixD1", "FixD3", "FixD4", "FixD5", "FixD6", "FixD9", "FixD16"],
+        "devs": ["FixD3", "FixD4", "FixD5", "FixD6", "FixD9", "FixD16"],
         "tiers": {
             "quick": {"gen_env": 4, "gen_cap": 4000, "sim": 1500, "random": 1500, "rand_args": []},
             "thorough": {"gen_env": 5, "gen_cap": 150000, "sim": 20000, "random": 20000,
